@@ -38,8 +38,7 @@ func c18Exceptions() []exception {
 		{"engine.projectColumns", "selectList[0]", "Parser.SelectList never returns an empty list on success", sideSelectListNonEmpty},
 		{"engine.EvaluateCreateTable", "panic", "every table element the parser appends has one of the four column types assigned", sideColumnTypeAssigned},
 		{"engine.sortColumns", "panic", "row values are produced by Tuple.Decode (int64, string, bool) or are absent/NULL (handled by the nil arm)", sideRowValueTypes},
-		{"storage.(*LRUCache).", ".Value.(*cacheEntry)", "every element pushed on the LRU list holds a *cacheEntry", sideLRUElements},
-		{"storage.(*fileStore).flushPages", ".Value.(*cacheEntry)", "every element pushed on the LRU list holds a *cacheEntry", sideLRUElements},
+		{"storage.", ".Value.(*cacheEntry)", "every element pushed on the LRU list holds a *cacheEntry", sideLRUElements},
 		{"storage.(*FieldDef).Validate", "val.(int64)", "dominated by the reflect.Kind test of the same arm", sideValidateKind},
 		{"storage.(*Tuple).Encode", "val.(", "the value passed Validate for this column type (C08.1) and Validate's arm demands the asserted kind (C08.2)", sideEncodeValidated},
 		{"storage.(*RelationService).getRelationFileOffset", "tuple.Vals[", "catalog row decoded with the fixed sys_pages schema, whose writers fill every column", sideCatalogSchemas},
